@@ -18,7 +18,9 @@ R = [1024, 256, 1000]
 
 
 class Store(object):
-    def __init__(self, float_file=False):
+    def __init__(self, float_file=False, from_handle=False):
+        self.from_handle = from_handle
+        self.handles = []
         d = tlc.scratch('heap_')
         self.path = os.path.join(d, 'h.fcs')
         extra = [('$BTIM', '10:00:00'), ('$ETIM', '10:05:00'), ('$DATE', '01-Jan-2020'), ('$TIMESTEP', '0.01'),
@@ -35,6 +37,13 @@ class Store(object):
     def load(self):
         with warnings.catch_warnings():
             warnings.simplefilter('ignore')
+            if self.from_handle:
+                # the documented "file-like" form of the constructor argument
+                h = open(self.path, 'rb')
+                self.handles.append(h)
+                if len(self.handles) > 50:
+                    self.handles.pop(0).close()
+                return FlowCal.io.FCSData(h)
             return FlowCal.io.FCSData(self.path)
 
 
